@@ -1,10 +1,57 @@
 package tcp
 
 import (
+	"errors"
 	"io"
+	"net"
 
 	gkm "github.com/go-kit/kit/metrics"
 )
+
+// closeWriter is implemented by connections which can shut down their
+// write side only, e.g. *net.TCPConn and *tls.Conn.
+type closeWriter interface {
+	CloseWrite() error
+}
+
+// errTunnelClosed is used internally to end a tunnel when an EOF cannot
+// be passed on as a half-close.
+var errTunnelClosed = errors.New("tcp: tunnel closed")
+
+// tunnel copies data between the client connection in and the upstream
+// connection out in both directions. inr is the reader for the client
+// data which may be in itself or a buffered reader wrapping it.
+//
+// When one side signals EOF the write side of the other connection is
+// closed so that the peer sees the EOF as well but can still send its
+// remaining data, e.g. the reply to a client which has half-closed the
+// connection after sending its request. The tunnel ends when both
+// directions are done, when copying fails or when the EOF cannot be
+// passed on. The caller is responsible for closing both connections.
+func tunnel(in net.Conn, inr io.Reader, out net.Conn, rx, tx gkm.Counter) error {
+	errc := make(chan error, 2)
+	cp := func(dst net.Conn, src io.Reader, c gkm.Counter) {
+		err := copyBuffer(dst, src, c)
+		if err == nil {
+			cw, ok := dst.(closeWriter)
+			if !ok || cw.CloseWrite() != nil {
+				err = errTunnelClosed
+			}
+		}
+		errc <- err
+	}
+
+	go cp(in, out, rx)
+	go cp(out, inr, tx)
+	err := <-errc
+	if err == nil {
+		err = <-errc
+	}
+	if err == errTunnelClosed {
+		err = nil
+	}
+	return err
+}
 
 // copyBuffer is an adapted version of io.copyBuffer which updates a
 // counter instead of returning the total bytes written.
